@@ -222,7 +222,7 @@ def _key_ctor(ctx, f, pv, rt, effs):
     key = f.key
     if key == "key::CoseKeyBuilder::new_ec2_priv_key":
         base_ok = is_call(rt, "key::CoseKeyBuilder::new_ec2_pub_key") and tuple(rt[2]) == (("param", 0), ("param", 1), ("param", 2))
-        want_push = B.pair(B.label("Int", ("const", -4)), ("aggr", "ciborium::Value", "Bytes", (("0", ("param", 3)),)))
+        want_push = B.pair(B.label("Int", ("const", -4)), ("aggr", "ciborium::value::Value", "Bytes", (("0", ("param", 3)),)))
         e_ok = len(effs) == 1 and effs[0][0] == "call" and effs[0][1] == B.PUSH and resolve_consts(prog, effs[0][3]) == want_push \
             and effs[0][2][0] == "field" and effs[0][2][2] == "params"
         ctx.ob("R-2", "key-ctor:%s" % key, base_ok and e_ok,
@@ -261,7 +261,7 @@ def _key_ctor(ctx, f, pv, rt, effs):
                     if vk == "curve-as-u64":
                         okv = is_call(it[1][1], "core::convert::From::from") and it[1][1][2][0] == ("cast", "IntToInt", ("discr", ("param", pi)), "u64")
                     else:
-                        okv = it[1][1] == ("aggr", "ciborium::Value", vk, (("0", ("param", pi)),))
+                        okv = it[1][1] == ("aggr", "ciborium::value::Value", vk, (("0", ("param", pi)),))
                     if it[0] != "tuple" or it[1][0] != want_l or not okv:
                         problems.append("entry for label %d is %s" % (lab, show(it)[:100]))
         others = [e for e in effs if not (e[0] == "assign" and e[2][0] == "array")]
